@@ -20,6 +20,10 @@ CLAIMED = {
          "Every string read in the model is valid UTF-8 and was pushed into that slot; on the code every &str handed out along every replayed transition is validated byte-wise (std::str::from_utf8 on as_bytes) and must be one of the pushed strings.", "5 C04"),
  "C05": ("tlc-index", "TLC model check of ICMC over exact 64-bit words + replay of every transition on the real containers",
          "All push/extend/clear sequences up to the bound over the transition-covering alphabet (0, small strides, u32::MAX, u32::MAX+1, 2^63, usize::MAX-1, usize::MAX): the model proves the container denotes the pushed sequence and Stride accepts exactly the documented pattern; every transition is executed on Vec/Stride/IndexList/IndexOptimized in overflow-checked and wrapping builds (panic = mismatch).", "5 C05"),
+ "C06": ("tlc-huffman", "TLC model check of HuffmanMC (every optimal code as merge outcome) + trace validation of recorded runs against TraceHuffman",
+         "Tiling of the bit axis, refusal exactly outside the statistics and code sanity are invariants of the bounded model; every history of the model and seeded random scenarios (1..1000 symbols, Fibonacci profiles, items spanning 0..2+ whole bytes at every phase, generations, wrapped items) are executed on HuffmanContainer<u8>/<u16> in both profiles; TLC validates each recorded event: measured code lengths must be an optimal prefix code for the spec's own merged statistics, bit ranges, reads and refusals must be as specified.", "5 C06"),
+ "C07": ("tlc-dictionary", "TLC model check of DictMC (every admissible ranking as merge outcome) + trace validation against TraceDict",
+         "RoundTrip / RefuseExact / RefusalNecessary are invariants of the bounded model; model histories and seeded random scenarios (all first bytes, entries vs prefixes vs tags, empty strings, 1..4 sources, generations, 1500 distinct strings with a dominant one) run on CodecRegion<DictionaryCodec> in both profiles; TLC validates every recorded push/merge/clear: exact bytes back or a legitimate refusal, must-code strings stored in one byte.", "5 C07"),
  "C08": ("tlc-regions", "TLC invariant ClearFresh (observational equivalence with Init) + replay against a real default twin",
          "ClearR(st) is observationally equal to InitR for every reachable state (look-ahead EquivDepth); on the code, for every history containing a clear, the same history with the clear replaced by a brand-new region must return the same indices and reads afterwards (regions, index containers, FlatStacks).", "5 C08"),
  "C09": ("tlc-regions", "TLC model with Copy actions (identity on every Level-B field) + replay comparing copy and original",
@@ -44,12 +48,12 @@ CLAIMED = {
          "Every (state, value, form) is a transition; the replay runs the same history with the canonical form and requires equal indices, equal stored bytes and equal reads.", "5 C20"),
 }
 NOT_YET = {
- "C06": "Huffman specification and trace binding under construction in this session",
- "C07": "Dictionary specification and trace binding under construction in this session",
  "C15": "comparison oracle (CmpItems) under construction in this session",
  "C17": "Alloc (capacity ledger) specification under construction in this session",
 }
 ENGINES = [
+ {"name": "tlc-huffman", "path": "spec/HuffmanMC.tla", "serves_properties": ["C06"], "kind_free_text": "TLC model checking of HuffmanMC.tla, scenario execution (harness huff-run) and TLC trace validation with TraceHuffman.tla"},
+ {"name": "tlc-dictionary", "path": "spec/DictMC.tla", "serves_properties": ["C07"], "kind_free_text": "TLC model checking of DictMC.tla, scenario execution (harness dict-run) and TLC trace validation with TraceDict.tla"},
  {"name": "tlc-index", "path": "spec/ICMC.tla", "serves_properties": ["C05", "C19"], "kind_free_text": "TLC explicit-state model checking of IndexContainers.tla over Word64 + transition replay (harness ic-replay)"},
  {"name": "tlc-regions", "path": "spec/RegionsMC.tla", "serves_properties": [k for k, v in CLAIMED.items() if v[0] == "tlc-regions"], "kind_free_text": "TLC model checking of the region algebra Regions.tla over the typed catalogue + transition replay (harness replay)"},
  {"name": "tlc-flatstack", "path": "spec/FlatStackMC.tla", "serves_properties": ["C03"], "kind_free_text": "TLC model checking of FlatStackMC.tla + transition replay (harness stack-replay)"},
